@@ -95,6 +95,35 @@ type Evaluator struct {
 	// slot write while it is > 0 is recorded as feature "hazard:slot-operand" (used only to
 	// exclude the trigger of an open finding; it does not change evaluation).
 	pendingSlot int
+	pendingVar  int // same for operands that may denote a variable's cell (interpreter aliasing)
+}
+
+// yieldsVar: may the value of e be a variable's cell itself?
+func yieldsVar(e Expr) bool {
+	switch e := e.(type) {
+	case Ident, SingletonRef:
+		return true
+	case Call:
+		return true
+	case Paren:
+		return yieldsVar(e.X)
+	case *Block:
+		return e.Tail != nil && yieldsVar(e.Tail)
+	case *If:
+		if e.Then.Tail != nil && yieldsVar(e.Then.Tail) {
+			return true
+		}
+		return e.Else != nil && yieldsVar(e.Else)
+	case *Match:
+		for _, a := range e.Arms {
+			if yieldsVar(a.Body) {
+				return true
+			}
+		}
+	case *Try:
+		return yieldsVar(e.Body) || yieldsVar(e.Catch)
+	}
+	return false
 }
 
 // yieldsSlot: may the value of e be the container slot itself (not a freshly computed value)?
@@ -480,8 +509,8 @@ func rangeItems(r RangeV) []Value {
 
 func (ev *Evaluator) evalArgs(as []Expr, e *env) ([]Value, *ctrl) {
 	out := make([]Value, len(as))
-	n := 0
-	defer func() { ev.pendingSlot -= n }()
+	n, nv := 0, 0
+	defer func() { ev.pendingSlot -= n; ev.pendingVar -= nv }()
 	for i, a := range as {
 		v, c := ev.eval(a, e)
 		if c != nil {
@@ -491,6 +520,10 @@ func (ev *Evaluator) evalArgs(as []Expr, e *env) ([]Value, *ctrl) {
 		if yieldsSlot(a) {
 			ev.pendingSlot++
 			n++
+		}
+		if yieldsVar(a) {
+			ev.pendingVar++
+			nv++
 		}
 	}
 	return out, nil
@@ -731,6 +764,10 @@ func (ev *Evaluator) infix(x Infix, e *env) (Value, *ctrl) {
 		ev.pendingSlot++
 		defer func() { ev.pendingSlot-- }()
 	}
+	if yieldsVar(x.L) {
+		ev.pendingVar++
+		defer func() { ev.pendingVar-- }()
+	}
 	r, c := ev.eval(x.R, e)
 	if c != nil {
 		return nil, c
@@ -865,7 +902,12 @@ func (ev *Evaluator) place(x Expr, e *env) (*place, *ctrl) {
 		if b == nil {
 			return nil, ev.abort("unbound " + x.Name)
 		}
-		return &place{func() Value { return b.v }, func(v Value) { b.v = v }}, nil
+		return &place{func() Value { return b.v }, func(v Value) {
+			if ev.pendingVar > 0 {
+				ev.feat("hazard:var-operand")
+			}
+			b.v = v
+		}}, nil
 	case SingletonRef:
 		b := ev.curMod.singletons[x.Name]
 		if b == nil {
@@ -915,16 +957,30 @@ func (ev *Evaluator) assign(x Assign, e *env) (Value, *ctrl) {
 	if c != nil {
 		return nil, c
 	}
+	if x.Op == "=" {
+		r, c := ev.eval(x.R, e)
+		if c != nil {
+			return nil, c
+		}
+		pl.set(r)
+		return NullV{}, nil
+	}
+	// `a op= b` is `a = a op b`: the target's value is read before b is evaluated.
+	old := pl.get()
+	switch x.L.(type) {
+	case Ident, SingletonRef:
+		ev.pendingVar++
+		defer func() { ev.pendingVar-- }()
+	default:
+		ev.pendingSlot++
+		defer func() { ev.pendingSlot-- }()
+	}
 	r, c := ev.eval(x.R, e)
 	if c != nil {
 		return nil, c
 	}
-	if x.Op == "=" {
-		pl.set(r)
-		return NullV{}, nil
-	}
 	op := strings.TrimSuffix(x.Op, "=")
-	nv, c := ev.binop(op, pl.get(), r)
+	nv, c := ev.binop(op, old, r)
 	if c != nil {
 		return nil, c
 	}
